@@ -65,17 +65,32 @@ fn read_records(dir: &str) -> Vec<(u64, u64, u64, u8)> {
 }
 
 /// Starts a node on `dir` (as after a restart) and decodes every oplog record through it.
+/// Decodes on a copy of the directory: a start-up changes the directory (an invalid log is
+/// discarded, the flag file removed), and the node under test must see it as the kill left it.
 fn decode(dir: &str) -> J {
-    // a damaged directory must not take the harness down: probe in a child first
+    let copy = format!("{}-dec", dir);
+    let _ = std::fs::remove_dir_all(&copy);
+    copy_dir(dir, &copy);
+    let r = decode_in(&copy);
+    let _ = std::fs::remove_dir_all(&copy);
+    r
+}
+
+fn decode_in(dir: &str) -> J {
+    // a damaged directory must not take the harness down: probe in a child first (on its own copy)
+    let probe_dir = format!("{}-probe", dir);
+    let _ = std::fs::remove_dir_all(&probe_dir);
+    copy_dir(dir, &probe_dir);
     let exe = std::env::current_exe().unwrap();
     let probe = std::process::Command::new("sh")
         .arg("-c")
         .arg("ulimit -v 6000000; exec timeout 20 \"$0\" probe-load \"$1\" admin adminpwd")
         .arg(exe)
-        .arg(dir)
+        .arg(&probe_dir)
         .stdout(std::process::Stdio::null())
         .stderr(std::process::Stdio::null())
         .status();
+    let _ = std::fs::remove_dir_all(&probe_dir);
     if !matches!(probe, Ok(s) if s.success()) {
         return json!({"start": "fail", "valid": false, "records": [], "dbids": {}, "nometa": []});
     }
@@ -152,7 +167,7 @@ pub fn run_case(case: &J, workdir: &str, out: &mut dyn Write, n: usize) -> Resul
     let mut run = start_run(&dir)?;
     writeln!(out, "{}", json!({"ev":"reset","run":id})).map_err(|e| e.to_string())?;
     let crash = case["crash"].as_bool() == Some(true);
-    let images: Arc<Mutex<Vec<(String, usize)>>> = Arc::new(Mutex::new(vec![]));
+    let images: Arc<Mutex<Vec<(String, Vec<(u64, String, String)>)>>> = Arc::new(Mutex::new(vec![]));
     let intents: Arc<Mutex<Vec<(u64, String, String)>>> = Arc::new(Mutex::new(vec![]));
     if crash {
         let (imgs, src, root, ints) = (images.clone(), dir.clone(), img_root.clone(), intents.clone());
@@ -160,8 +175,10 @@ pub fn run_case(case: &J, workdir: &str, out: &mut dyn Write, n: usize) -> Resul
             let mut s = imgs.lock().unwrap();
             let k = s.len();
             copy_dir(&src, &format!("{}/{}", root, k));
-            let n_int = ints.lock().unwrap().len();
-            s.push((site.to_string(), n_int));
+            // what the log may contain at this instant: the intents so far (kept with the image: a
+            // later restart that discards the log also forgets them)
+            let so_far = ints.lock().unwrap().clone();
+            s.push((site.to_string(), so_far));
         })));
     }
     let empty = vec![];
@@ -220,12 +237,10 @@ pub fn run_case(case: &J, workdir: &str, out: &mut dyn Write, n: usize) -> Resul
     writeln!(out, "{}", json!({"ev":"check","kind":"end","run":id,"i":9999,"dec":dec,"intents":intents_json(&ints)})).map_err(|e| e.to_string())?;
     if crash {
         let imgs = images.lock().unwrap().clone();
-        for (k, (site, n_int)) in imgs.iter().enumerate() {
+        for (k, (site, upto)) in imgs.iter().enumerate() {
             let idir = format!("{}/{}", img_root, k);
             let dec = decode(&idir);
-            // intents known when the image was taken, plus the one being written
-            let upto: Vec<(u64, String, String)> = ints.iter().take(*n_int).cloned().collect();
-            writeln!(out, "{}", json!({"ev":"check","kind":"image","site":site,"run":id,"i":k,"dec":dec,"intents":intents_json(&upto)})).map_err(|e| e.to_string())?;
+            writeln!(out, "{}", json!({"ev":"check","kind":"image","site":site,"run":id,"i":k,"dec":dec,"intents":intents_json(upto)})).map_err(|e| e.to_string())?;
         }
     }
     let _ = std::fs::remove_dir_all(&dir);
